@@ -454,14 +454,14 @@ pub fn check_accepted(req: &Request, before: &ConfigState, after: &ConfigState) 
         RequestType::AddTcpFrontend(f) => {
             let new = TcpFrontend { cluster_id: f.cluster_id.clone(), address: f.address.into(), tags: f.tags.clone() };
             let mut want = before.tcp_fronts.get(&f.cluster_id).cloned().unwrap_or_default();
-            post(!want.contains(&new), "accepted although the same frontend existed");
+            post(!want.iter().any(|x| x.address == new.address), "accepted although the cluster had a frontend at that address");
             want.push(new);
             post(after.tcp_fronts.get(&f.cluster_id) == Some(&want), "bucket is not (old bucket followed by the new frontend)");
         }
         RequestType::AddUdpFrontend(f) => {
             let new = UdpFrontend { cluster_id: f.cluster_id.clone(), address: f.address.into(), tags: f.tags.clone() };
             let mut want = before.udp_fronts.get(&f.cluster_id).cloned().unwrap_or_default();
-            post(!want.contains(&new), "accepted although the same frontend existed");
+            post(!want.iter().any(|x| x.address == new.address), "accepted although the cluster had a frontend at that address");
             want.push(new);
             post(after.udp_fronts.get(&f.cluster_id) == Some(&want), "bucket is not (old bucket followed by the new frontend)");
         }
